@@ -450,6 +450,10 @@ def semantic_mutants():
                     else:
                         k = j
                     out.append((f"{name}: left operand of # at token {i} replaced by {bad}", render(toks[:k] + bad.split(" ") + toks[j + 1:]), "diff-operand"))
+    # operands of `#` are validated whatever the other operand denotes (also when the left side is empty)
+    for left in ("( 'a' # 'a' )", "( [ 'a' - 'c' ] # [ 'a' - 'z' ] )", "[ ]"):
+        for bad, kind in (('"ab"', "diff-operand"), ("( 'a' * )", "diff-operand"), ("$nope", "unbound"), ("$$no_such_builtin", "builtin"), ("$", "diff-operand")):
+            out.append((f"left operand {left} (empty class), right operand {bad}", f"( {left} # {bad} ) | 'z' = 0 ,\n'y' = 1 ,", kind))
     plain, sets = BASES[0][1], BASES[1][1]
     out.append(("sets: rule set defined twice", sets + "\nrule Str {\n    'z' = 9 ,\n}", "dup-ruleset"))
     out.append(("sets: Init defined twice", sets + "\nrule Init {\n    'z' = 9 ,\n}", "dup-ruleset"))
